@@ -25,6 +25,11 @@ def uplink_ap(data_bits, addr):
     return p ^ a
 
 
+def oracle_frame(dhex, a):
+    d = bits_of(int(dhex, 16), len(dhex) * 4)
+    return hex_of(d + bits_of(uplink_ap(d, a), 24))
+
+
 def hexd(n):
     return "%X" % n
 
@@ -141,6 +146,10 @@ def cases(ctx):
                 yield from emit(f, "uf11")
     # address recovery through the Annex 10 uplink encoder
     addrs = [0, 1, 0xFFFFFF, 0x800000, 0x000001, 0xABCDEF, 0x123456] + [rng.getrandbits(24) for _ in range(ctx.n(3000, 30000))]
+    for a in addrs[:400]:
+        n = rng.choice([56, 112, 72])
+        d = spec.background(rng, n - 24)
+        yield dict(op="spec.uplinkframe %s %d" % (hex_of(d), a), real=("h:props.C18.oracle_frame", [hex_of(d), a]), tag="spec-tie", trivial=True)
     for a in addrs:
         for n in (56, 112):
             d = spec.background(rng, n - 24)
